@@ -1,4 +1,5 @@
 import BV.Lemmas.StreamTiny2
+import BV.Lemmas.StreamRunTile
 /-
 C01 — Streaming compression round-trips for every input, setting and call history.
 
@@ -181,6 +182,149 @@ theorem C01_roundtrip_partial {Dec : List Bool → Bytes → Prop} {input : Byte
   rw [List.take_add]
   exact this
 
+/-! ### whole histories (the run-level object `BV/Model/StreamRun.lean`)
+
+`run o fuel calls s0 {}` folds `set_parameter` / `compress_stream(op, chunk, cap)` /
+`take_output(size)` over a history with ONE oracle and returns the final state and a `Trace`
+(delivered bytes, concatenated requests, closed flags, consumed input).  A history has a LOG —
+the list of events (`Ev`) of the atomic steps it is made of (`Lemmas/StreamLts*`): `window`
+(stream header), `copy`, `push`, `pad` (sync block), `enc` (an `encode_data` invocation: the
+skeleton's own bits — magic-number block, stored prelude — and, if `taken`, the payload encoder's
+bits behind them), `fast` (one quality 0/1 block), `mdHeader`, `mdBody`, `tau`.  `Ev.bits` is what
+an event appends to the bit stream, `Ev.step` what it does to the positions. -/
+
+/-- **delivered_is_framed_concat** (whole history, ONE theorem): for every history on a fresh
+encoder — any parameters, any interleaving of calls, any output capacities, any oracle — there is
+a log such that
+* everything produced so far (`deliveredBits`: delivered bytes, pending bytes, carry) is EXACTLY the
+  concatenation of the bits of the log's events, in order: nothing dropped, duplicated or reordered;
+* the log starts with the stream header (`window`) — emitted once, by the first `compress_stream` —
+  and has no other; behind it come, in call order, skeleton pieces, payload pieces, sync blocks,
+  metadata headers and bodies, each of the form `Ev.bits` gives it;
+* its payload-encoder events are the trace's request list, numbered 0, 1, 2, … (`LogOK`: each
+  request is the one the positions dictate), and the final positions are the log's (`logPos`). -/
+theorem delivered_is_framed_concat {o : Oracle} {fuel : Nat} {calls : List Call} {s0 s : St} {t : Trace}
+    (hf : IsFresh s0) (hops : HistOK calls) (hw : histLen calls < two64)
+    (h : run o fuel calls s0 {} = .ok (s, t)) :
+    ∃ log : List Ev,
+      deliveredBits t s = log.flatMap (Ev.bits o)
+      ∧ (log = [] ∨ ∃ b rest, log = .window b :: rest ∧ NoWindow rest)
+      ∧ log.filterMap Ev.req = t.reqs
+      ∧ LogOK ⟨0, 0, 0, 0⟩ log
+      ∧ s.pos = logPos ⟨0, 0, 0, 0⟩ log := by
+  have hip : s0.inputPos = 0 := (isFresh_fields hf).2.2.1
+  obtain ⟨log, f⟩ := run_facts (o := o) (fuel := fuel) (t0 := {}) (runOK_fresh hf) hops (by rw [hip]; omega) h
+  refine ⟨log, ?_, ?_, ?_, ?_, ?_⟩
+  · have := f.bits
+    rw [deliveredBits_fresh hf, List.nil_append] at this
+    exact this
+  · rcases f.win with ⟨_, _, a3⟩ | ⟨_, _, b, r, a3, a4⟩ | ⟨a1, _, _⟩
+    · exact Or.inl a3
+    · exact Or.inr ⟨b, r, a3, a4⟩
+    · rw [isFreshInit hf] at a1; cases a1
+  · have := f.reqs
+    simp only [List.nil_append] at this
+    exact this.symm
+  · have := f.lok
+    rw [pos_fresh hf] at this
+    exact this
+  · have := f.pos
+    rw [pos_fresh hf] at this
+    exact this
+
+/-- **requests_tile_input** (whole history): the `[lo, hi)` ranges of all `encode_data` requests
+of a history are consecutive, start at 0 and end at `last_processed_pos_`, which never runs ahead
+of `input_pos_`; `input_pos_` is the number of bytes copied into the ring buffer; the invocation
+counter is the number of requests.  (The one-shot path's requests carry block lengths instead of
+ranges and do not move the positions.) -/
+theorem requests_tile_input_run {o : Oracle} {fuel : Nat} {calls : List Call} {s0 s : St} {t : Trace}
+    (hf : IsFresh s0) (hops : HistOK calls) (hw : histLen calls < two64)
+    (h : run o fuel calls s0 {} = .ok (s, t)) :
+    Tiles 0 (slowReqs t.reqs) s.lastProcessedPos ∧ s.lastProcessedPos ≤ s.inputPos
+    ∧ s.nEnc = t.reqs.length
+    ∧ ∃ log : List Ev, log.filterMap Ev.req = t.reqs ∧ s.inputPos = logCopied log := by
+  obtain ⟨log, _, _, hr, hok, hpos⟩ := delivered_is_framed_concat hf hops hw h
+  obtain ⟨t1, t2⟩ := logOK_tiles hok (Nat.le_refl _)
+  have hlp : s.lastProcessedPos = (logPos ⟨0, 0, 0, 0⟩ log).lp := congrArg Pos.lp hpos
+  have hipp : s.inputPos = (logPos ⟨0, 0, 0, 0⟩ log).ip := congrArg Pos.ip hpos
+  have hk : s.nEnc = (logPos ⟨0, 0, 0, 0⟩ log).k := congrArg Pos.k hpos
+  have hr' : logReqs log = t.reqs := hr
+  refine ⟨by rw [hlp, ← hr']; exact t1, by rw [hlp, hipp]; exact t2, ?_, log, hr, ?_⟩
+  · rw [hk, logPos_k, ← hr']; simp
+  · rw [hipp, logPos_ip]; simp
+
+/-- **closed flags = meta-block boundaries** (whole history): the trace's `closed` list is
+`closesMb` applied to the requests in order (invocation `k` = position in the list; the quality
+class is fixed at first use), and for the log's `encode_data` events the flag means what `Ev.cl`
+says: flag TRUE ⇒ after the invocation `last_flush_pos_ = hi` of its request (the open meta-block,
+which started at the request's `lf` — plus the stored prelude — ends there); flag FALSE ⇒ the
+payload encoder's bits were not emitted (`taken = false`) and `last_flush_pos_` only moved over the
+stored prelude: the meta-block stays open.  So the meta-block ranges of a history are determined by
+`t.reqs` and `t.closed` alone. -/
+theorem closed_flags_mark_boundaries {o : Oracle} {fuel : Nat} {calls : List Call} {s0 s : St} {t : Trace}
+    (hf : IsFresh s0) (hops : HistOK calls) (hw : histLen calls < two64)
+    (h : run o fuel calls s0 {} = .ok (s, t)) :
+    t.closed = closedFlags o s.q01 0 t.reqs ∧
+    ∃ log : List Ev, log.filterMap Ev.req = t.reqs ∧ LogOK ⟨0, 0, 0, 0⟩ log ∧ LogCl o s.q01 ⟨0, 0, 0, 0⟩ log
+      ∧ s.pos = logPos ⟨0, 0, 0, 0⟩ log := by
+  have hip : s0.inputPos = 0 := (isFresh_fields hf).2.2.1
+  obtain ⟨log, f⟩ := run_facts (o := o) (fuel := fuel) (t0 := {}) (runOK_fresh hf) hops (by rw [hip]; omega) h
+  have hr : t.reqs = logReqs log := by
+    have := f.reqs
+    simp only [List.nil_append] at this
+    exact this
+  have hp0 := pos_fresh hf
+  refine ⟨?_, log, hr.symm, by rw [← hp0]; exact f.lok, by rw [← hp0]; exact f.cl, by rw [← hp0]; exact f.pos⟩
+  have := f.closed
+  have hk : s0.nEnc = 0 := congrArg Pos.k hp0
+  rw [hk, ← hr] at this
+  simpa using this
+
+/-- what the round trip assumes of the format and of the payload encoder, per emitted piece:
+`Dec bits bytes` ("these bits, a sequence of complete meta-blocks, decode to these bytes") is
+compositional, and every piece of the log decodes to the input range it covers (`Ev.adv`: an
+`encode_data` event covers what it moves `last_flush_pos_` over — its stored prelude, or the whole
+open meta-block when it closes it; a one-shot block covers its bytes; everything else — sync blocks,
+metadata — covers nothing).  The skeleton pieces are format facts (C04 proves the metadata ones
+against an independent reader); the payload pieces are the un-modelled encoder core. -/
+structure PiecesOK (Dec : List Bool → Bytes → Prop) (input : Bytes) (o : Oracle) (log : List Ev) : Prop where
+  nil : Dec [] []
+  append : ∀ a b x y, Dec a x → Dec b y → Dec (a ++ b) (x ++ y)
+  pieces : PiecesDecode Dec input o 0 ⟨0, 0, 0, 0⟩ log
+
+/-- **C01_roundtrip** over a whole history: there is a log (the one of `delivered_is_framed_concat`)
+such that, if every piece decodes to its range, then everything produced so far is the stream
+header followed by bits that decode to the first `logAdv` bytes of the input — and without one-shot
+blocks `logAdv` is exactly `last_flush_pos_`: at every moment the emitted stream decodes to the
+input up to the last flush position; after FINISH (`last_flush_pos_ = input_pos_`) to all of it. -/
+theorem C01_roundtrip_run {Dec : List Bool → Bytes → Prop} {input : Bytes} {o : Oracle} {fuel : Nat}
+    {calls : List Call} {s0 s : St} {t : Trace}
+    (hf : IsFresh s0) (hops : HistOK calls) (hw : histLen calls < two64)
+    (h : run o fuel calls s0 {} = .ok (s, t)) :
+    ∃ log : List Ev, log.filterMap Ev.req = t.reqs ∧
+      (PiecesOK Dec input o log →
+        ∃ header, deliveredBits t s = header ++ logBodyBits o log
+          ∧ Dec (logBodyBits o log) (input.take (logAdv ⟨0, 0, 0, 0⟩ log))
+          ∧ ((∀ e ∈ log, ∀ k r, e ≠ .fast k r) → logAdv ⟨0, 0, 0, 0⟩ log = s.lastFlushPos)) := by
+  obtain ⟨log, hb, hwin, hr, hok, hpos⟩ := delivered_is_framed_concat hf hops hw h
+  refine ⟨log, hr, ?_⟩
+  intro hP
+  have hdec := pieces_compose hP.nil hP.append input o log 0 ⟨0, 0, 0, 0⟩ hP.pieces
+  simp only [List.drop_zero] at hdec
+  have hlf : (∀ e ∈ log, ∀ k r, e ≠ .fast k r) → logAdv ⟨0, 0, 0, 0⟩ log = s.lastFlushPos := by
+    intro hnf
+    have := logAdv_lf hok hnf
+    have hl : s.lastFlushPos = (logPos ⟨0, 0, 0, 0⟩ log).lf := congrArg Pos.lf hpos
+    rw [hl, ← this]; simp
+  rcases hwin with rfl | ⟨b, rest, rfl, hnw⟩
+  · exact ⟨[], by rw [hb]; rfl, hdec, hlf⟩
+  · refine ⟨b, ?_, hdec, hlf⟩
+    rw [hb]
+    show logBits o (.window b :: rest) = b ++ logBodyBits o (.window b :: rest)
+    have : logBodyBits o (.window b :: rest) = logBodyBits o rest := rfl
+    rw [this, logBodyBits_noWindow o hnw]
+    simp [logBits, Ev.bits]
+
 /-! ### non-vacuity -/
 
 /-- `MetaBlockDecodes` is satisfiable (trivially, by the relation "always"), so the partial
@@ -189,6 +333,15 @@ example (input : Bytes) (o : Oracle) : MetaBlockDecodes (fun _ _ => True) input 
   ⟨trivial, fun _ _ _ _ _ _ => trivial, fun _ _ => trivial, fun _ _ _ => trivial⟩
 
 example : Contract.accepts .processing 2 10 = true := by decide
+
+/-- a concrete history runs: quality 5, FINISH with three bytes, ample room — one request, output delivered -/
+def exampleOracle : Oracle := fun _ _ => { result := true, emit := true, bits := List.replicate 20 true }
+def exampleRunOk (r : Out (St × Trace)) : Bool :=
+  match r with
+  | .ok (s, t) => t.reqs.length == 1 && t.delivered.length != 0 && isFinished s && t.closed == [true]
+  | _ => false
+example : exampleRunOk (run exampleOracle 40 [.setParam 1 5, .stream 2 [1, 2, 3] 100] St.new {}) = true := by decide
+example : HistOK [.setParam 1 5, .stream 2 [1, 2, 3] 100] := ⟨by omega, trivial⟩
 
 /-
 NOT proved here: the rest of `stream_no_panic` — the bounds on `storage_` (they need
